@@ -3,7 +3,7 @@
    expressions, plus one static analysis computing (a) lower bounds on len(raw) that make
    evaluation panic-free and (b) persistence of verdicts under extension of the header. *)
 From Verif Require Import Base.Bytes.
-Open Scope nat_scope.
+Local Open Scope nat_scope.
 
 Inductive cmp := CEq | CNe | CLt | CLe | CGt | CGe.
 Definition cmpN (c : cmp) (a v : N) : bool :=
